@@ -435,7 +435,7 @@ Lemma retry_loop_spec : forall iv maxd cancel pick0 calls t kk atts r te, iv <> 
   (cancel = None -> r <> RCtxCanceled) /\
   (* only the horizon, or the end of the input, ends a run of plain failures *)
   (r = RPending -> length atts = length calls) /\
-  (r = RGiveUpNil \/ r = RLoopExit -> maxd <= te).
+  (r = RGiveUp \/ r = RLoopExit -> maxd <= te).
 Proof.
   intros iv maxd cancel pick0 calls. induction calls as [|c rest IH]; intros t kk atts r te Hne H.
   - cbn [retry_loop] in H. destruct (negb (t <? maxd)) eqn:Em; injection H as <- <- <-;
@@ -472,7 +472,7 @@ Proof.
          (r = RCtxCanceled -> te = Z.max (last_end t atts) cn)) /\
       (cancel = None -> r <> RCtxCanceled) /\
       (r = RPending -> length atts = length (c :: rest)) /\
-      (r = RGiveUpNil \/ r = RLoopExit -> maxd <= te)).
+      (r = RGiveUp \/ r = RLoopExit -> maxd <= te)).
     { intros r0 Hr0 E. injection E as <- <- <-. split; [apply Ha; exact I|]. split.
       - destruct Hr0 as [[-> Ho]|[[-> Ho]|[-> Ho]]]; cbn [stop_ok]; exists [], a; (split; [reflexivity|split; [constructor|exact Ho]]).
       - split; [|split; [|split]].
@@ -568,7 +568,7 @@ Theorem stops_on_success_cancel_noretry : forall iv maxd cancel pick0 calls atts
   (forall i, (i < length atts)%nat -> a_out (nth i atts att0) = c_out (nth i calls call0)) /\
   (cancel = None -> r <> RCtxCanceled) /\
   (r = RPending -> length atts = length calls) /\
-  (r = RGiveUpNil \/ r = RLoopExit -> maxd <= te).
+  (r = RGiveUp \/ r = RLoopExit -> maxd <= te).
 Proof.
   intros iv maxd cancel pick0 calls atts r te Hne H.
   destruct (retry_loop_spec iv maxd cancel pick0 calls 0 0 atts r te Hne H) as (Ht & Hs & _ & Hc & Hp & Hg).
@@ -580,7 +580,7 @@ Qed.
 Theorem retries_while_failing : forall iv maxd pick0 calls atts r te, iv <> [] ->
   Forall (fun c => c_out c = OPlain) calls ->
   do_with_retry iv maxd None pick0 calls = (atts, r, te) ->
-  (r = RPending /\ length atts = length calls) \/ ((r = RGiveUpNil \/ r = RLoopExit) /\ maxd <= te).
+  (r = RPending /\ length atts = length calls) \/ ((r = RGiveUp \/ r = RLoopExit) /\ maxd <= te).
 Proof.
   intros iv maxd pick0 calls atts r te Hne Hpl H.
   destruct (stops_on_success_cancel_noretry iv maxd None pick0 calls atts r te Hne H) as (Hs & Ho & Hc & Hp & Hg).
@@ -624,15 +624,27 @@ Proof.
   pose proof (sched_positive iv p Hne Hpos). lia.
 Qed.
 
-(** "giving up" after the horizon is reported as success: the loop can return nil although
-    every attempt failed (model-only observation: the horizon is 30 days) *)
-Theorem nil_means_success_refuted : exists iv maxd calls atts te,
+(** nil means success: the loop returns nil only when the last attempt succeeded — also at
+    the horizon ("final attempt; giving up" returns the last error) *)
+Theorem nil_only_after_success : forall iv maxd cancel pick0 calls atts r te, iv <> [] ->
+  do_with_retry iv maxd cancel pick0 calls = (atts, r, te) -> returns_nil r = true ->
+  exists l a, atts = l ++ [a] /\ Forall plain l /\ a_out a = OOk.
+Proof.
+  intros iv maxd cancel pick0 calls atts r te Hne H Hn.
+  destruct (stops_on_success_cancel_noretry iv maxd cancel pick0 calls atts r te Hne H) as (Hs & _).
+  destruct r; try discriminate Hn. exact Hs.
+Qed.
+
+(** the code before a99379d: "giving up" after the horizon was reported as success — the loop
+    returned nil although every attempt had failed *)
+Theorem giving_up_returned_nil_orig_refuted : exists iv maxd calls atts r te,
   iv <> [] /\ all_positive iv = true /\
-  do_with_retry iv maxd None false calls = (atts, RGiveUpNil, te) /\ Forall plain atts /\ atts <> [].
+  do_with_retry iv maxd None false calls = (atts, r, te) /\ returns_nil_gen false r = true /\
+  Forall plain atts /\ atts <> [].
 Proof.
   exists [10], 25, [Call OPlain 1 0; Call OPlain 1 0; Call OPlain 20 0].
-  eexists. eexists. split; [discriminate|]. split; [reflexivity|]. split; [vm_compute; reflexivity|].
-  split; [repeat constructor|discriminate].
+  eexists. exists RGiveUp. eexists. split; [discriminate|]. split; [reflexivity|]. split; [vm_compute; reflexivity|].
+  split; [reflexivity|]. split; [repeat constructor|discriminate].
 Qed.
 
 (** * (c) test CA *)
